@@ -48,7 +48,7 @@ func chunkedEncode(rt *rapid.T, body []byte) []byte {
 }
 
 func TestC27(t *testing.T) {
-	rec := ev.New("C27", "a harness backend answers with a generated well-formed raw response (status incl. 1xx/204/304, framing: Content-Length / chunked / close-delimited / HTTP/1.0, Connection options, end-to-end fields, bodies 0..70000 B) to a generated client request (GET/HEAD/POST, HTTP/1.0|1.1, keep-alive/close) through an in-process BFE; client-side bytes are parsed by a strict RFC 7230 response parser and a pipelined sentinel request detects trailing garbage. One cluster keeps backend connections alive; there the backend may append a stale second response or junk behind its response, and a later client's request must still get its own answer. non-trivial: anything but GET/HTTP/1.1 with 200+Content-Length; distinct by request+response shape")
+	rec := ev.New("C27", "a harness backend answers with a generated well-formed raw response (status incl. 1xx/204/304, framing: Content-Length / chunked / close-delimited / HTTP/1.0, Connection options, end-to-end fields, bodies 0..70000 B) to a generated client request (GET/HEAD/POST, HTTP/1.0|1.1, keep-alive/close) through an in-process BFE; client-side bytes are parsed by a strict RFC 7230 response parser and a pipelined sentinel request detects trailing garbage. Requests to a cluster without a reachable member (GET, POST, POST with Expect: 100-continue) are answered by BFE itself and must also be exactly one response. One cluster keeps backend connections alive; there the backend may append a stale second response or junk behind its response, and a later client's request must still get its own answer. non-trivial: anything but GET/HTTP/1.1 with 200+Content-Length; distinct by request+response shape")
 	w := startWorld(t, 1, sys.Options{}, func(ports []int) *sys.DataConf {
 		// three clusters on the same backend that differ in ResFlushInterval
 		// (-1 flush immediately = shipped default, 0 never, 3 ms periodic)
@@ -64,7 +64,11 @@ func TestC27(t *testing.T) {
 		cka := sys.OneBackendCluster("cka", ports[0])
 		cka.TimeoutResponseHeaderMs = 3000
 		cka.MaxIdleConnsPerHost = 2
-		return sys.SimpleConf("v0", []sys.Cluster{cl, cf0, cf3, cka}, []sys.Rule{
+		// and one whose only member refuses connections: BFE answers those requests itself
+		cdead := sys.Cluster{Name: "cdead", RetryMax: 0, TimeoutConnSrvMs: 500, Sub: []sys.SubCluster{{Name: "cdead.sub", Weight: 100,
+			Backends: []sys.BackendSpec{{Name: "dead", Addr: "127.0.0.1", Port: 1, Weight: 10}}}}}
+		return sys.SimpleConf("v0", []sys.Cluster{cl, cf0, cf3, cka, cdead}, []sys.Rule{
+			{Cond: `req_path_prefix_in("/c27dead/", false)`, Cluster: "cdead"},
 			{Cond: `req_path_prefix_in("/c27ka/", false)`, Cluster: "cka"},
 			{Cond: `req_path_prefix_in("/c27f0/", false)`, Cluster: "cf0"},
 			{Cond: `req_path_prefix_in("/c27f3/", false)`, Cluster: "cf3"},
@@ -74,6 +78,10 @@ func TestC27(t *testing.T) {
 	n := 0
 	rapid.Check(t, func(rt *rapid.T) {
 		n++
+		if rapid.IntRange(0, 11).Draw(rt, "bfe-generated-response") == 0 {
+			c27Generated(rt, rec, w, n)
+			return
+		}
 		flush := rapid.SampledFrom([]string{"c27", "c27", "c27f0", "c27f3", "c27f3", "c27ka", "c27ka"}).Draw(rt, "flush-cluster")
 		target := fmt.Sprintf("/%s/%d", flush, n)
 		method := rapid.SampledFrom([]string{"GET", "GET", "HEAD", "POST"}).Draw(rt, "method")
@@ -356,4 +364,96 @@ func sameFieldMap(a, b map[string][]string) bool {
 		}
 	}
 	return true
+}
+
+// c27Generated: the response is produced by BFE itself (no backend can be reached). The
+// request may announce a body with Expect: 100-continue that nobody is going to read. The
+// client must still see exactly one well-formed final response, then a close or - on a
+// kept connection - nothing but the answer to the next request.
+func c27Generated(rt *rapid.T, rec *ev.Rec, w *world, n int) {
+	kind := rapid.SampledFrom([]string{"get", "post", "post-expect", "post-expect-chunked"}).Draw(rt, "generated-request")
+	cver := rapid.SampledFrom([]string{"HTTP/1.1", "HTTP/1.1", "HTTP/1.0"}).Draw(rt, "cver")
+	cconn := rapid.SampledFrom([]string{"", "keep-alive", "close"}).Draw(rt, "cconn")
+	if cver == "HTTP/1.0" && strings.HasPrefix(kind, "post-expect") {
+		kind = "post"
+	}
+	target := fmt.Sprintf("/c27dead/%d", n)
+	var rq bytes.Buffer
+	method := "GET"
+	if kind != "get" {
+		method = "POST"
+	}
+	fmt.Fprintf(&rq, "%s %s %s\r\nHost: example.org\r\n", method, target, cver)
+	if cconn != "" {
+		fmt.Fprintf(&rq, "Connection: %s\r\n", cconn)
+	}
+	switch kind {
+	case "get":
+		rq.WriteString("\r\n")
+	case "post":
+		rq.WriteString("Content-Length: 3\r\n\r\nabc")
+	case "post-expect":
+		rq.WriteString("Expect: 100-continue\r\nContent-Length: 3\r\n\r\n")
+	default:
+		rq.WriteString("Expect: 100-continue\r\nTransfer-Encoding: chunked\r\n\r\n")
+	}
+	shape := fmt.Sprintf("bfe-generated %s %s conn=%q", kind, cver, cconn)
+	rec.Case(shape+fmt.Sprint(n%7), true, "bfe-generated-response", "generated:"+kind, "client:"+cver)
+	rec.Sample(map[string]any{"request": rq.String(), "backend": "unreachable"})
+	wit := map[string]any{"request": rq.String(), "shape": shape}
+	c, err := w.rig.Dial()
+	if err != nil {
+		rt.Fatalf("rig: %v", err)
+	}
+	defer c.Close()
+	c.Write(rq.Bytes())
+	respBytes, m, closed, perr := readOneResponse(c, method, 10*time.Second)
+	wit["client_got"] = clipS(respBytes)
+	if perr == nil && m != nil && m.Status == 100 {
+		// BFE asks for the body after all (it may, as long as a final response follows)
+		if kind == "post-expect" {
+			c.Write([]byte("abc"))
+		} else {
+			c.Write([]byte("3\r\nabc\r\n0\r\n\r\n"))
+		}
+		var more []byte
+		more, m, closed, perr = readOneResponse(c, method, 10*time.Second)
+		respBytes = more
+		wit["client_got_after_100"] = clipS(more)
+		rec.Class("generated:100-before-final")
+	}
+	if perr != nil || m == nil {
+		rec.Fail(rt, "generated-response-malformed:"+kind, wit, "BFE's own response does not parse as one response (closed=%v): %v", closed, perr)
+		return
+	}
+	if m.Status/100 != 5 {
+		rec.Class(fmt.Sprintf("generated-status:%d", m.Status))
+	}
+	rest := respBytes[m.ConsumedLen:]
+	if !closed {
+		if strings.HasPrefix(kind, "post-expect") {
+			// the announced body was never sent; a client that gives up waiting sends it now
+			if kind == "post-expect" {
+				c.Write([]byte("abc"))
+			} else {
+				c.Write([]byte("3\r\nabc\r\n0\r\n\r\n"))
+			}
+		}
+		fmt.Fprintf(c, "GET /c27/%d/gs HTTP/1.1\r\nHost: example.org\r\nConnection: close\r\n\r\n", n)
+		more, _ := sys.ReadAllTimeout(c, 6*time.Second)
+		rest = append(rest, more...)
+		w.forget(fmt.Sprintf("/c27/%d/gs", n))
+		if len(rest) > 0 {
+			sm, serr := ref.ParseResponse(rest, "GET", true)
+			if serr != nil || len(rest) != sm.ConsumedLen || sm.Status == 100 {
+				wit["after_response"] = clipS(rest)
+				rec.Fail(rt, "generated-response-followed-by-garbage:"+kind, wit, "after BFE's own response the connection carries more than one answer to the next request (err=%v): %q", serr, clipS(rest))
+			}
+		}
+		return
+	}
+	if len(rest) > 0 {
+		wit["after_response"] = clipS(rest)
+		rec.Fail(rt, "generated-response-followed-by-garbage:"+kind, wit, "%d bytes after BFE's own response before close: %q", len(rest), clipS(rest))
+	}
 }
